@@ -77,6 +77,12 @@ chk("C16", "enum",
     "Reading D8 (no nil entries; duplicates kept or first-mention kept; embedded collections judged by the global clauses).",
     "DESIGN.md §3 C16")
 
+chk("C18", "enum",
+    "bounded-exhaustive enumeration of (to, from) pairs (single properties x set/unset combinations x backgrounds; property pairs x 16 combinations; refusal grid) on the implementation against the merge clauses on reflection snapshots",
+    "Every property of each supported struct x 4 set/unset combinations x 4 backgrounds, every property pair x 16 combinations, the nil/typed-nil matrix, id variants (non-equivalent must be refused, equivalent must be accepted), type and struct mismatches and unsupported types; clauses: error and to untouched on refusal, from never modified, id/type from from, each property old-or-new, nothing lost, merged properties taken.",
+    "Reading D11; two value variants per kind; nested structs judged per sub-property.",
+    "DESIGN.md §3 C18")
+
 manifest = {
     "version": 1,
     "setup_cmd": "./setup.sh",
